@@ -77,6 +77,7 @@ spec fn count_ok(sc0: usize, cnt0: nat, sc: usize, cnt: nat) -> bool {
     cnt >= cnt0 && (sc0 + (cnt - cnt0) <= usize::MAX ==> sc == sc0 + (cnt - cnt0))
 }
 // what reconstruct_path promises about the path it returns
+#[verifier::opaque]
 spec fn real_path<M: Model>(m: M, p: Path<M::State, M::Action>) -> bool {
     &&& is_chain(m, path_states(p))
     &&& forall|i: int| 0 <= i < p.0@.len() - 1 ==> (#[trigger] p.0@[i]).1.is_some()
